@@ -12,6 +12,28 @@
 //!
 //! Every judged physical key has its own output alphabet (letters, two modifiers, override
 //! outputs), so attribution never depends on kanata's tables.
+//!
+//! Overrides (`defoverrides`) stay inside one alphabet but are otherwise unrestricted: the input key
+//! is mostly one the cells of the judged key really list, the output is a private override key or
+//! another LETTER of the alphabet (a key cells list themselves, and possibly the input of another
+//! override), the input modifier is one of the alphabet's two modifiers (held by the cell itself) or
+//! the context modifier lmet (held by the history). 2 of 5 override configurations contain a CHAIN
+//! K1->K2, K2->K3 (optionally K3->K4) whose links have different input modifiers. Completeness is
+//! judged for them like for everything else: whatever of the key's alphabet is down and was not down
+//! before the press must be repeated - in particular an override output that the cell does not list
+//! itself (`judged_with_override_output_down`) and the tail K3 of a chain when the cell lists K1 and
+//! K2 (`judged_with_chained_override_tail_down[_k1_listed_first]`). A dropped repeat is classified by
+//! what is down: only keys the cell cannot put down without an override
+//! (`C14:repeat-dropped:override-output-down`), reached through a chain
+//! (`C14:repeat-dropped:chained-override-output-down`), anything else (`C14:repeat-dropped`).
+//!
+//! Known classes of the unchanged tree are bounded structurally: `defsrc-fallback+override` only when
+//! the effective cell is transparent, the defsrc key itself is the input of an override and nothing but
+//! outputs of overrides on it (and modifiers) is attributed; `repeat-of-up-key:unmod+override` only when
+//! the key that is up is the input or output key of an override;
+//! `defsrc-fallback+override-modifier-stripped-by-unmod` only for a transparent cell, an unmod key
+//! pressed in the window, an override with an input modifier on the defsrc key and the defsrc key
+//! itself down.
 
 use crate::core::rng::Rng;
 use crate::core::sim::{code_name, osc, render_hist, Ev, OutKind, Sim};
@@ -68,6 +90,21 @@ struct CellInfo {
     /// some key name is written twice in the cell (kanata lists every output once, so "last-listed"
     /// is then not the position in the text)
     dup_keys: bool,
+    /// non-modifier keys of the judged alphabets the cell can put down itself, in listing order
+    /// (config names; `use-defsrc` counts as the physical key, a chords-v1 cell lists the key's own
+    /// group action)
+    listed: Vec<String>,
+    text_for_listing: Option<String>,
+}
+
+/// one `defoverrides` entry
+#[derive(Clone, PartialEq)]
+struct Ov {
+    /// input modifier (config name), if any
+    m_in: Option<&'static str>,
+    k_in: String,
+    m_out: Option<&'static str>,
+    k_out: String,
 }
 
 struct ActGen<'a> {
@@ -248,6 +285,13 @@ struct Cfg {
     cells: Vec<Vec<CellInfo>>,
     has_overrides: bool,
     override_inputs: Vec<String>,
+    ovs: Vec<Ov>,
+    /// two overrides K1->K2 and K2->K3 with different input modifiers were generated on purpose
+    ov_chain: bool,
+    /// some override outputs a letter of the judged alphabets (a key cells list themselves)
+    ov_letter_out: bool,
+    /// some override takes the context modifier (a key outside every alphabet) as its input modifier
+    ov_ctx_mod: bool,
     chords_v1: bool,
     chords_v2: bool,
     /// some override writes a modifier into its output
@@ -300,12 +344,14 @@ fn make_cfg(rng: &mut Rng, systematic: Option<usize>) -> Cfg {
     // chord group / chords v2 definitions
     let mut extra = String::new();
     let mut chord_infos: Vec<CellInfo> = vec![];
+    let mut chord_texts: Vec<String> = vec![];
     if chords_v1 {
         let mut s = format!("(defchords cg {t}");
         for (ki, a) in ALPH.iter().enumerate() {
             let mut g = ActGen { rng, a, n_layers, info: CellInfo::default(), allow_mod_keys: false, t };
             let act = g.action(1, false, 1);
             chord_infos.push(g.info.clone());
+            chord_texts.push(act.clone());
             s.push_str(&format!(" (k{ki}) {act}"));
         }
         s.push_str(&format!(" (k0 k1) {} (k1 k2) {}", CHORD_POOL[0][0], CHORD_POOL[1][0]));
@@ -321,36 +367,135 @@ fn make_cfg(rng: &mut Rng, systematic: Option<usize>) -> Cfg {
             if rng.coin() { "all-released" } else { "first-release" }
         ));
     }
+    // chord-v1 cells put down what the key's own group action lists
+    if chords_v1 {
+        for row in cells.iter_mut() {
+            for (ki, c) in row.iter_mut().enumerate() {
+                if c.forms.contains("chord-v1") {
+                    c.text_for_listing = Some(chord_texts[ki].clone());
+                }
+            }
+        }
+    }
+    for row in cells.iter_mut() {
+        for (ki, c) in row.iter_mut().enumerate() {
+            let t = c.text_for_listing.clone().unwrap_or_else(|| c.text.clone());
+            c.listed = listed_keys(&t, ALPH[ki].phys);
+        }
+    }
     let mut override_inputs = vec![];
-    let mut ov_pairs: Vec<(String, String)> = vec![];
+    let mut ovs: Vec<Ov> = vec![];
     // override-release-on-activation is not generated: its documented effect (override outputs are
     // only tapped) changes the pressed set by itself one tick after activation, and a repeat injected
     // in exactly that tick sees kanata one tick ahead of the OS
     let ov_release = false;
     let mut ov_out_mods = false;
+    let mut ov_chain = false;
     if has_overrides {
-        let mut s = String::from("(defoverrides\n");
-        let n = 1 + rng.usize(3);
-        let mut used: Vec<String> = vec![];
-        for _ in 0..n {
-            let a = &ALPH[rng.usize(3)];
-            let k = rng.pick(a.letters).to_string();
-            let m_in = if rng.coin() { Some(*rng.pick(a.mods)) } else { None };
-            let key_in = format!("{}{}", m_in.map(|m| format!("{m} ")).unwrap_or_default(), k);
-            if used.contains(&key_in) {
-                continue;
+        // what the cells of each judged key list, over all layers (override inputs are mostly drawn
+        // from these, so that overrides actually fire)
+        let mut listed_all: [Vec<String>; 3] = Default::default();
+        for row in cells.iter() {
+            for (ki, c) in row.iter().enumerate() {
+                for k in &c.listed {
+                    if !listed_all[ki].contains(k) {
+                        listed_all[ki].push(k.clone());
+                    }
+                }
             }
-            used.push(key_in.clone());
-            let o = rng.pick(a.ov).to_string();
+        }
+        fn pick_in(rng: &mut Rng, ai: usize, listed: &[Vec<String>; 3], not: &[&String]) -> Option<String> {
+            let pool: Vec<String> = if !listed[ai].is_empty() && rng.chance(3, 4) { listed[ai].clone() } else { ALPH[ai].letters.iter().map(|s| s.to_string()).collect() };
+            let pool: Vec<String> = pool.into_iter().filter(|k| !not.contains(&k)).collect();
+            if pool.is_empty() {
+                None
+            } else {
+                Some(rng.pick(&pool).clone())
+            }
+        }
+        // input modifiers: the two of the alphabet (a cell holds them itself, as a key or as an
+        // output-chord prefix) or the context modifier (held by the history)
+        fn mod_pool(rng: &mut Rng, a: &Alph) -> Vec<&'static str> {
+            let mut v: Vec<&'static str> = vec![a.mods[0], a.mods[1], CTX_MOD];
+            rng.shuffle(&mut v);
+            v
+        }
+        // chained overrides: the output of one is the input of the next, with different modifiers
+        if rng.chance(2, 5) {
+            // mostly on two keys that one cell lists (in either order), so that the cell can put the
+            // middle key of the chain down itself
+            let multi_cells: Vec<(usize, Vec<String>)> = cells.iter().flat_map(|row| row.iter().enumerate()).filter(|(_, c)| c.listed.len() >= 2).map(|(ki, c)| (ki, c.listed.clone())).collect();
+            let (ai, k1, k2) = if !multi_cells.is_empty() && rng.chance(3, 4) {
+                let (ki, l) = rng.pick(&multi_cells).clone();
+                let mut l = l;
+                rng.shuffle(&mut l);
+                (ki, Some(l[0].clone()), Some(l[1].clone()))
+            } else {
+                let ai = rng.usize(3);
+                let k1 = pick_in(rng, ai, &listed_all, &[]);
+                let k2 = k1.as_ref().and_then(|k1| pick_in(rng, ai, &listed_all, &[k1]));
+                (ai, k1, k2)
+            };
+            let a = &ALPH[ai];
+            let mut mp = mod_pool(rng, a);
+            if rng.coin() {
+                // the second link on the context modifier: the history holds it, whatever the cell does
+                if let Some(i) = mp.iter().position(|m| *m == CTX_MOD) {
+                    mp.swap(1, i);
+                }
+            }
+            if let (Some(k1), Some(k2)) = (k1, k2) {
+                let k3 = if rng.coin() { rng.pick(a.ov).to_string() } else { pick_in(rng, ai, &listed_all, &[&k1, &k2]).unwrap_or_else(|| a.ov[0].to_string()) };
+                let m1 = if rng.chance(1, 4) { None } else { Some(mp[0]) };
+                ovs.push(Ov { m_in: m1, k_in: k1.clone(), m_out: None, k_out: k2.clone() });
+                ovs.push(Ov { m_in: Some(mp[1]), k_in: k2.clone(), m_out: None, k_out: k3.clone() });
+                if k3.len() == 1 && k3.chars().all(|c| c.is_ascii_lowercase()) && rng.chance(1, 3) {
+                    // a third link
+                    ovs.push(Ov { m_in: Some(mp[2]), k_in: k3, m_out: None, k_out: rng.pick(a.ov).to_string() });
+                }
+                ov_chain = true;
+            }
+        }
+        let n = if ov_chain { rng.usize(3) } else { 1 + rng.usize(3) };
+        for _ in 0..n {
+            let ai = rng.usize(3);
+            let a = &ALPH[ai];
+            let Some(k) = pick_in(rng, ai, &listed_all, &[]) else { continue };
+            let m_in = match rng.usize(6) {
+                0 | 1 | 2 => None,
+                3 | 4 => Some(*rng.pick(a.mods)),
+                _ => Some(CTX_MOD),
+            };
+            let o = if rng.chance(1, 3) { pick_in(rng, ai, &listed_all, &[&k]).unwrap_or_else(|| a.ov[0].to_string()) } else { rng.pick(a.ov).to_string() };
             let m_out = if rng.chance(1, 3) { Some(*rng.pick(a.mods)) } else { None };
-            ov_out_mods |= m_out.is_some();
-            s.push_str(&format!("  ({key_in}) ({}{o})\n", m_out.map(|m| format!("{m} ")).unwrap_or_default()));
-            ov_pairs.push((k.clone(), o.clone()));
-            override_inputs.push(k);
+            ovs.push(Ov { m_in, k_in: k, m_out, k_out: o });
+        }
+        // one override per input (modifier, key)
+        let mut used: Vec<(Option<&'static str>, String)> = vec![];
+        ovs.retain(|o| {
+            let key = (o.m_in, o.k_in.clone());
+            if used.contains(&key) {
+                false
+            } else {
+                used.push(key);
+                true
+            }
+        });
+        let mut s = String::from("(defoverrides\n");
+        for o in &ovs {
+            ov_out_mods |= o.m_out.is_some();
+            s.push_str(&format!("  ({}{}) ({}{})\n", o.m_in.map(|m| format!("{m} ")).unwrap_or_default(), o.k_in, o.m_out.map(|m| format!("{m} ")).unwrap_or_default(), o.k_out));
+            override_inputs.push(o.k_in.clone());
         }
         s.push_str(")\n");
         extra.push_str(&s);
     }
+    let ov_pairs: Vec<(String, String)> = ovs.iter().map(|o| (o.k_in.clone(), o.k_out.clone())).collect();
+    let is_letter = |k: &str| ALPH.iter().any(|a| a.letters.contains(&k));
+    let ov_letter_out = ovs.iter().any(|o| is_letter(&o.k_out));
+    let ov_ctx_mod = ovs.iter().any(|o| o.m_in == Some(CTX_MOD));
+    // (recomputed after the dedup: a chain needs both links)
+    let ov_chain = ov_chain && ovs.iter().any(|o1| ovs.iter().any(|o2| o1 != o2 && o1.k_out == o2.k_in && o1.m_in != o2.m_in));
     for row in cells.iter_mut() {
         for (ki, c) in row.iter_mut().enumerate() {
             c.dup_keys = has_dup_keys(&c.text, ALPH[ki].phys, &ov_pairs);
@@ -435,7 +580,7 @@ fn make_cfg(rng: &mut Rng, systematic: Option<usize>) -> Cfg {
             }
         }
     }
-    Cfg { text, n_layers, cells, has_overrides, override_inputs, chords_v1, chords_v2, ov_out_mods, ov_release: has_overrides && ov_release, t, seq_mode, alph_own, alph_names, mod_names }
+    Cfg { text, n_layers, cells, has_overrides, override_inputs, ovs, ov_chain, ov_letter_out, ov_ctx_mod, chords_v1, chords_v2, ov_out_mods, ov_release: has_overrides && ov_release, t, seq_mode, alph_own, alph_names, mod_names }
 }
 
 // ------------------------------------------------------------------------------------------------
@@ -575,7 +720,8 @@ fn do_repeat(out: &mut CaseOut, w: &mut Window, code: u16, hostile: bool) {
             } else if w.pressed_in_seq && w.cfg.seq_mode != "visible-backspaced" {
                 // a key pressed while a hidden sequence was being typed never reached the OS
                 "C14:repeat-of-up-key:press-hidden-by-sequence-mode"
-            } else if any_unmod_held && w.cfg.has_overrides {
+            } else if any_unmod_held && w.cfg.ovs.iter().any(|ov| code_name(osc(&ov.k_in)) == o.name || code_name(osc(&ov.k_out)) == o.name) {
+                // (known class: the key that is up is the input or the output key of an override)
                 "C14:repeat-of-up-key:unmod+override"
             } else if any_unmod_held && w.cfg.mod_names.contains(&o.name) || any_unmod_held && o.name == code_name(osc(CTX_MOD)) {
                 "C14:repeat-of-up-key:modifier-suppressed-by-unmod"
@@ -643,12 +789,50 @@ fn do_repeat(out: &mut CaseOut, w: &mut Window, code: u16, hostile: bool) {
     if w.cfg.has_overrides {
         out.inc("judged_with_overrides");
     }
+    // which of the attributed keys can only be down through an override (the cell does not list them)
+    let rel = ov_rel(w.cfg, &cell);
+    let via_override = attributed.iter().any(|k| rel.ov_only.contains(k));
+    let via_chain = attributed.iter().any(|k| rel.chain_tail.contains(k));
+    let only_via_override = attributed.iter().all(|k| rel.ov_only.contains(k) || w.cfg.mod_names.contains(k));
+    if via_override {
+        out.inc("judged_with_override_output_down");
+        if is_letter_name(attributed.iter().filter(|k| rel.ov_only.contains(*k))) {
+            out.inc("judged_with_letter_override_output_down");
+        }
+        let ctx_mod_ov = w.cfg.ovs.iter().any(|o| o.m_in == Some(CTX_MOD) && attributed.contains(&code_name(osc(&o.k_out))) && rel.ov_only.contains(&code_name(osc(&o.k_out))));
+        if ctx_mod_ov && w.ctx_down.contains(&osc(CTX_MOD)) {
+            out.inc("judged_with_context_modifier_override_output_down");
+        }
+    }
+    if via_chain {
+        out.inc("judged_with_chained_override_tail_down");
+        if attributed.iter().any(|k| rel.chain_tail_k1_first.contains(k)) {
+            out.inc("judged_with_chained_override_tail_down_k1_listed_first");
+        }
+    }
     let exp = json!({"one_repeat_for_a_key_in": attributed});
     let extra = json!({"cell": cell.text, "held_layers": layers_now.0, "base_layer": layers_now.1, "down_before_press": h.before});
     match outs.first() {
         None => {
             // every searched layer is transparent for this key: kanata falls back to the defsrc key
-            let sig = if cell.transparent && w.cfg.has_overrides { "C14:repeat-dropped:defsrc-fallback+override" } else { "C14:repeat-dropped" };
+            // (the known class is only: the defsrc key itself is the input of an override and nothing
+            // but outputs of overrides on it is attributed)
+            let phys = ALPH[h.ki].phys;
+            let phys_ov_outs: BTreeSet<String> = w.cfg.ovs.iter().filter(|o| o.k_in == phys).map(|o| code_name(osc(&o.k_out))).collect();
+            let sig = if cell.transparent && !phys_ov_outs.is_empty() && attributed.iter().all(|k| phys_ov_outs.contains(k) || w.cfg.mod_names.contains(k)) && attributed.iter().any(|k| phys_ov_outs.contains(k)) {
+                "C14:repeat-dropped:defsrc-fallback+override"
+            } else if cell.transparent && w.unmod_pressed && attributed.contains(&code_name(osc(phys))) && w.cfg.ovs.iter().any(|o| o.k_in == phys && o.m_in.is_some()) {
+                // (known class, same root cause as unmod+override: an unmod key has stripped the
+                // input modifier of an override on the defsrc key at the OS, the repeat path still
+                // applies that override)
+                "C14:repeat-dropped:defsrc-fallback+override-modifier-stripped-by-unmod"
+            } else if via_chain && only_via_override {
+                "C14:repeat-dropped:chained-override-output-down"
+            } else if via_override && only_via_override {
+                "C14:repeat-dropped:override-output-down"
+            } else {
+                "C14:repeat-dropped"
+            };
             out.violate(sig, format!("{} holds {:?} down through {} but its repeat produced nothing", code_name(code), attributed, cell.forms.iter().copied().collect::<Vec<_>>().join("/")), witness(w.cfg, &w.d, json!(shown), exp, extra));
         }
         Some(o) => {
@@ -668,6 +852,10 @@ fn do_repeat(out: &mut CaseOut, w: &mut Window, code: u16, hostile: bool) {
         }
     }
     out.tag(format!("{}|L{:?}b{}|{}", shape(&cell.text), layers_now.0, layers_now.1, w.cfg.has_overrides));
+}
+
+fn is_letter_name<'a>(mut names: impl Iterator<Item = &'a String>) -> bool {
+    names.any(|n| ALPH.iter().any(|a| a.letters.iter().any(|l| code_name(osc(l)) == *n)))
 }
 
 fn any_mod_as_key(cfg: &Cfg, ki: usize) -> bool {
@@ -735,6 +923,75 @@ fn has_dup_keys(text: &str, phys: &str, ov: &[(String, String)]) -> bool {
         }
     }
     false
+}
+
+/// the non-modifier keys of the judged alphabets an action text lists, in listing order, each once
+/// (`use-defsrc` lists the physical key; chord prefixes are stripped; condition / key-list tokens
+/// such as z and x are outside every alphabet)
+fn listed_keys(text: &str, phys: &str) -> Vec<String> {
+    let mut v: Vec<String> = vec![];
+    for tok in text.split(|c: char| c == '(' || c == ')' || c == ' ') {
+        let mut rest = if tok == "use-defsrc" { phys } else { tok };
+        loop {
+            let mut hit = false;
+            for p in ["RS-", "RC-", "RA-", "S-", "C-", "A-"] {
+                if let Some(r) = rest.strip_prefix(p) {
+                    rest = r;
+                    hit = true;
+                    break;
+                }
+            }
+            if !hit {
+                break;
+            }
+        }
+        if ALPH.iter().any(|a| a.letters.contains(&rest)) && !v.iter().any(|x| x == rest) {
+            v.push(rest.to_string());
+        }
+    }
+    v
+}
+
+/// how the overrides relate to what a cell lists
+#[derive(Default)]
+struct OvRel {
+    /// OS names of the keys the cell lists itself
+    direct: BTreeSet<String>,
+    /// OS names of outputs of overrides whose input key the cell lists, and that the cell does not list
+    ov_only: BTreeSet<String>,
+    /// the subset of `ov_only` reached through a chain: output of an override on K2, where K2 is
+    /// listed by the cell and is also the output of another override (different input modifier) on a
+    /// listed key K1
+    chain_tail: BTreeSet<String>,
+    /// the subset of `chain_tail` where K1 is listed before K2
+    chain_tail_k1_first: BTreeSet<String>,
+}
+
+fn ov_rel(cfg: &Cfg, cell: &CellInfo) -> OvRel {
+    let mut r = OvRel::default();
+    for k in &cell.listed {
+        r.direct.insert(code_name(osc(k)));
+    }
+    let pos = |k: &String| cell.listed.iter().position(|x| x == k);
+    for o2 in &cfg.ovs {
+        let Some(p2) = pos(&o2.k_in) else { continue };
+        if cell.listed.contains(&o2.k_out) {
+            continue;
+        }
+        let name = code_name(osc(&o2.k_out));
+        r.ov_only.insert(name.clone());
+        for o1 in &cfg.ovs {
+            if o1 == o2 || o1.k_out != o2.k_in || o1.m_in == o2.m_in {
+                continue;
+            }
+            let Some(p1) = pos(&o1.k_in) else { continue };
+            r.chain_tail.insert(name.clone());
+            if p1 < p2 {
+                r.chain_tail_k1_first.insert(name.clone());
+            }
+        }
+    }
+    r
 }
 
 /// structural shape of an action text: key names -> k, modifiers -> m, numbers -> N
@@ -996,6 +1253,15 @@ impl Check for C14Check {
         if cfg.has_overrides {
             out.inc("configs_with_overrides");
         }
+        if cfg.ov_chain {
+            out.inc("configs_with_chained_overrides");
+        }
+        if cfg.ov_letter_out {
+            out.inc("configs_with_override_output_inside_letters");
+        }
+        if cfg.ov_ctx_mod {
+            out.inc("configs_with_context_modifier_override");
+        }
         out.inc(&format!("configs_with_{}_layers", cfg.n_layers));
         out.inc(&format!("seq_mode_{}", cfg.seq_mode));
         let mut hrng = Rng::for_case(ctx.seed, "C14", "hist", idx);
@@ -1011,16 +1277,18 @@ impl Check for C14Check {
         let mut seen = BTreeSet::new();
         out.violations.retain(|v| seen.insert(v.sig.clone()));
         if idx % 1000 < 3 {
-            out.sample = Some(json!({"idx": idx, "config": cfg.text, "override_inputs": cfg.override_inputs}));
+            out.sample = Some(json!({"idx": idx, "config": cfg.text, "override_inputs": cfg.override_inputs, "chained_overrides": cfg.ov_chain}));
         }
         out
     }
     fn rule(&self) -> String {
-        "case = one configuration with three judged physical keys (each with a private output alphabet of 6 letters, 2 modifiers and 2 override outputs) whose cells on 1-3 layers are random key-producing actions nested to depth 3 (plain key, modifier key, output chord, multi, 7 tap-hold variants, tap-dance lazy/eager, 5 one-shot variants, fork, switch with break/fallthrough and key/input/layer conditions, unmod, unshift, use-defsrc, transparent, chords v1, chords v2), optional defoverrides inside the alphabets, context keys (z, x, lmet, two layer-while-held keys, layer-switch keys, sequence leader with three input modes), x 6 (quick) / 10 (thorough) history windows: context set up, then 4-17 random steps (press a judged key from a settled state or immediately after another, repeats of held judged keys singly and in bursts, repeats of context keys, the other key x, releases followed by a stray repeat, repeats of keys that are not held, waits of 1 tick / below / at / beyond the timeouts). Safety is judged at every repeat, completeness when the precondition in the module header holds. Non-trivial = a repeat that was judged for completeness; distinct = (action shape of the effective cell, layer context, overrides).".into()
+        "case = one configuration with three judged physical keys (each with a private output alphabet of 6 letters, 2 modifiers and 2 override outputs) whose cells on 1-3 layers are random key-producing actions nested to depth 3 (plain key, modifier key, output chord, multi, 7 tap-hold variants, tap-dance lazy/eager, 5 one-shot variants, fork, switch with break/fallthrough and key/input/layer conditions, unmod, unshift, use-defsrc, transparent, chords v1, chords v2), optional defoverrides inside the alphabets (1-5 entries; input key drawn 3:1 from the keys the judged cells list; output a private override key or, 1 in 3, another letter of the alphabet; input modifier none / one of the alphabet's two / the context modifier lmet; 2 of 5 override configurations contain a chain K1->K2, K2->K3 [, K3->K4] with pairwise different input modifiers, K1 and K2 3:1 two keys that one judged cell lists, in either order, the second link on lmet half of the time), context keys (z, x, lmet, two layer-while-held keys, layer-switch keys, sequence leader with three input modes), x 6 (quick) / 10 (thorough) history windows: context set up, then 4-17 random steps (press a judged key from a settled state or immediately after another, repeats of held judged keys singly and in bursts, repeats of context keys, the other key x, releases followed by a stray repeat, repeats of keys that are not held, waits of 1 tick / below / at / beyond the timeouts). Safety is judged at every repeat, completeness when the precondition in the module header holds. Non-trivial = a repeat that was judged for completeness; distinct = (action shape of the effective cell, layer context, overrides).".into()
     }
     fn assumptions(&self) -> Vec<String> {
         vec![
-            "attribution uses disjoint output alphabets per judged key; fork/switch conditions only use context keys outside these alphabets; overrides map inside one alphabet".into(),
+            "attribution uses disjoint output alphabets per judged key; fork/switch conditions only use context keys outside these alphabets; overrides map inside one alphabet (input and output non-modifier key and, unless it is the context modifier lmet, the input modifier)".into(),
+            "overrides are applied once, not transitively (observed on the tree and not contradicted by the guide): nothing is assumed about WHICH key an override chain puts down - completeness only demands a repeat for whatever key of the alphabet the OS model shows down and attributable to the press; the chain counters are structural (the cell lists K1 and K2, overrides K1->K2 and K2->K3 with different input modifiers exist, K3 is not listed by the cell and is down)".into(),
+            "override-release-on-activation is not generated (its documented effect ends the output one tick after activation)".into(),
             "the judged keys' own actions contain no layer actions, so the layer stack between press and repeat changes only through the context keys, which are not touched inside a window".into(),
             "completeness is not judged while kanata is in sequence mode, for keys pressed while a decision was pending or a one-shot was active, or when nothing of the key's alphabet is down".into(),
             "the 'last-listed key rather than a modifier' clause is judged only for keys whose actions (on every layer) use modifiers exclusively as output-chord prefixes".into(),
@@ -1042,6 +1310,14 @@ impl Check for C14Check {
             ("judged_with_held_layer", 20_000 * s),
             ("judged_on_switched_base_layer", 15_000 * s),
             ("judged_with_overrides", 30_000 * s),
+            ("configs_with_chained_overrides", 2_000 * s),
+            ("configs_with_override_output_inside_letters", 3_000 * s),
+            ("configs_with_context_modifier_override", 2_000 * s),
+            ("judged_with_override_output_down", 3_000 * s),
+            ("judged_with_letter_override_output_down", 600 * s),
+            ("judged_with_context_modifier_override_output_down", 300 * s),
+            ("judged_with_chained_override_tail_down", 120 * s),
+            ("judged_with_chained_override_tail_down_k1_listed_first", 60 * s),
             ("judged_depth_3", 3_000 * s),
             ("judged_form_fork", 8_000 * s),
             ("judged_form_switch", 7_000 * s),
